@@ -7,7 +7,7 @@ from vf.ref import recheck as refcheck
 
 ID = "C04"
 LEVEL = "exploration"
-TECHNIQUE = "Hypothesis-generated payloads of non-zero bytes x own/reference metafiles x damage sets (byte flips, truncations, removals anywhere); oracle: the virtual stream changed, so Checker.results() must be < 100"
+TECHNIQUE = "Hypothesis-generated payloads of non-zero bytes x own/reference metafiles x damage sets (byte flips, truncations, removals anywhere); oracle: the virtual stream changed, so Checker.results() must be < 100 ; optional prime run (intact recheck first, damage applied with timestamps restored); deterministic large-piece grid"
 RULE = ("Cases: generated tree of non-zero bytes (so every damaged or absent region differs from the described bytes) x piece length x "
         "metafile source (five own creators; reference encoder incl. shuffled/aligned v1, hybrid with/without trailing pad, v2 single "
         "file without info.length) x content path root/parent x non-empty damage set drawn over all non-empty files: flip one byte at "
